@@ -35,7 +35,9 @@ def make_config(seed, tier, index=None):
             # collections that arrived as bare repositories (git clone --bare / push) below the home sets
             "bare_collections": r.random() < 0.4,
             # first start with --autocreate only, a later restart with --defaults
-            "upgrade_to_defaults": ac == "yes" and r.random() < 0.5}
+            "upgrade_to_defaults": ac == "yes" and r.random() < 0.5,
+            # the operator converts the default collections into bare repositories while the server is down
+            "migrate_to_bare": ac == "defaults" and r.random() < 0.4}
 
 
 class DiscoRun:
@@ -195,7 +197,7 @@ class DiscoRun:
         if len(self.samples) < 1:
             self.samples.append({"layout": self.layout(), "entry": c["entry"], "restarts": c["restarts"], "reached": found})
         restarts = c["restarts"]
-        if (c.get("bare_collections") or c.get("upgrade_to_defaults")) and restarts == 0:
+        if (c.get("bare_collections") or c.get("upgrade_to_defaults") or c.get("migrate_to_bare")) and restarts == 0:
             restarts = 1
         for i in range(restarts + 1):
             self.write_data(found, i)
@@ -203,6 +205,8 @@ class DiscoRun:
                 break
             if i == 0 and c.get("bare_collections") and len(found["homes"]) >= 2:
                 self.add_bare_collections(found)
+            if i == 0 and c.get("migrate_to_bare"):
+                self.migrate_to_bare(found)
             if i == 0 and c.get("upgrade_to_defaults"):
                 w.cfg["autocreate"] = "defaults"
                 w.srv.autocreate = "defaults"
@@ -247,6 +251,41 @@ class DiscoRun:
                 rel = urllib.parse.unquote(home[len(pre):]) + name + "/"
                 preseed_collection(self.arena.root, rel, "bare", kind)
                 self.bare_targets[key] = home + name + "/"
+        finally:
+            FS.active = a
+
+    def migrate_to_bare(self, found):
+        """Server down: every non-bare collection found by discovery becomes a bare repository at
+        the same place (git clone --bare, swap).  Contents, properties and tokens are the same."""
+        import os
+        import subprocess
+        import urllib.parse
+
+        from ..simfs import FS
+        from ..world import rmtree_real
+
+        a = FS.active
+        FS.active = False
+        try:
+            from ..server import drop_store_cache
+
+            drop_store_cache()
+            pre = self.world.prefix.rstrip("/")
+            env = dict(os.environ, GIT_CONFIG_GLOBAL="/dev/null")
+            for tgt in sorted(found["calendars"] + found["addressbooks"]):
+                p = os.path.join(self.arena.root, urllib.parse.unquote(tgt[len(pre):]).strip("/"))
+                if not os.path.isdir(os.path.join(p, ".git")):
+                    continue
+                tmp = p + ".bare-tmp"
+                q = subprocess.run(["git", "-c", "safe.directory=*", "clone", "-q", "--bare", "--no-hardlinks", p, tmp], env=env, capture_output=True, timeout=60)
+                if q.returncode != 0:
+                    # e.g. no commit yet: nothing to migrate
+                    rmtree_real(tmp)
+                    continue
+                rmtree_real(p)
+                os.rename(tmp, p)
+                self.count("fault.collection_migrated_to_bare")
+                self.ops.append({"op": "migrate_to_bare", "target": tgt})
         finally:
             FS.active = a
 
